@@ -143,6 +143,13 @@ def module_name_form(t):
         if not good:
             return False, "the prefix cut from the first line is not exactly '@module'"
         return (True, "") if stripped else (False, "the blanks around the name are not trimmed")
+    # line0.split('@module', 1)[1] / [-1]  and  line0.partition('@module')[2]: the first line of a module doccomment always
+    # contains the tag (lexer rule Module_docstring), so cutting at its first occurrence equals removing it
+    if t[0] == "sub" and t[1][0] == "call" and t[1][1][0] == "attr" and _first_line(t[1][1][1]):
+        meth, args = t[1][1][2], t[1][2]
+        if (meth == "split" and args in ((const("@module"), const(1)), (const("@module"),)) and t[2] in (const(1), const(-1))) or \
+                (meth == "partition" and args == (const("@module"),) and t[2] == const(2)):
+            return (True, "") if stripped else (False, "the blanks around the name are not trimmed")
     # re.sub('@module', '', line0)
     if t[0] == "call" and t[1] == ("global", "re.sub") and len(t[2]) >= 3 and _first_line(t[2][2]):
         pat, repl = t[2][0], t[2][1]
